@@ -92,7 +92,7 @@ func runC13(c *core.Ctx) {
 	}
 	// larger shapes, seeded
 	r := c.Rand(13)
-	for i := 0; i < c.Pick(60, 600); i++ {
+	for i := 0; i < c.Pick(60, 3000); i++ {
 		t := dyn.Types[r.Intn(len(dyn.Types))]
 		ch := r.Range(1, 64)
 		k := r.Pick(r.Range(13, 64), r.Range(65, 1024), r.Range(1025, 8192))
@@ -104,7 +104,7 @@ func runC13(c *core.Ctx) {
 		c.Obs("large_allocs", 1)
 	}
 	// independence of simultaneously live allocations
-	for g := 0; g < c.Pick(120, 1500); g++ {
+	for g := 0; g < c.Pick(120, 12000); g++ {
 		t := dyn.Types[r.Intn(len(dyn.Types))]
 		m := r.Range(2, 32)
 		caseID := fmt.Sprintf("group/%s/%d/%d", t.Name, g, m)
